@@ -4,7 +4,7 @@ namespace Ndn
 open Comp
 
 theorem inCharset_lt (c : Char) (h : inCharset c = true) : c.toNat < 128 := by
-  simp [inCharset, isAsciiLetter, isAsciiDigit] at h
+  simp [inCharset_eq, isAsciiLetter, isAsciiDigit] at h
   rcases h with ((((((h | h) | h) | h) | h) | h) | h) | h
   all_goals first | omega | (subst h; decide)
 
